@@ -25,3 +25,24 @@ Fixpoint intern_all (st : list (pix * Z)) (ps : list pix) : list Z * list (pix *
 Definition add_contour (st : skstate) (contour : list pix) : skstate :=
   let '(ks, tbl) := intern_all (sk_vertices st) contour in mkSk tbl (sk_cells st ++ [ks]).
 Definition lattice (contours : list (list pix)) : skstate := fold_left add_contour contours (mkSk [] []).
+
+(* ---- Skeleton.__post_init__ (skeleton.py:35-42): the first contour is dropped, then every contour whose area is not below five times
+   the mean of all areas but the largest.  On integer pixel coordinates calculate_area (skeleton.py:329-340) is half the integer
+   |sum_i x_i*y_(i-1) - y_i*x_(i-1)|, so the comparison  area < 5 * mean(sorted(areas)[:-1])  is the integer comparison below
+   (the float evaluation agrees with it except on an exact tie). *)
+Fixpoint zprev_sum (a : pix) (l : list pix) : Z :=
+  match l with [] => 0 | p :: t => (fst p * snd a - snd p * fst a) + zprev_sum p t end.
+Definition signed_area2 (c : list pix) : Z := match c with [] => 0 | p0 :: _ => zprev_sum (last c p0) c end.
+Definition area2_pix (c : list pix) : Z := Z.abs (signed_area2 c).
+Definition zsum (l : list Z) : Z := fold_right Z.add 0 l.
+Definition zmax (l : list Z) : Z := fold_right Z.max 0 l.
+(* np.mean of an empty list is nan and every comparison with it is False: nothing is kept when there are fewer than two contours *)
+Definition keeps (areas : list Z) (a : Z) : bool :=
+  (2 <=? Z.of_nat (length areas)) && (a * (Z.of_nat (length areas) - 1) <? 5 * (zsum areas - zmax areas)).
+Definition area_filter (cs : list (list pix)) : list (list pix) :=
+  let areas := map area2_pix cs in filter (fun c => keeps areas (area2_pix c)) cs.
+Definition parse_contours (all : list (list pix)) : list (list pix) := area_filter (tl all).
+(* an exact tie: the only place where the float comparison may differ from the integer one *)
+Definition area_tie (cs : list (list pix)) : bool :=
+  let areas := map area2_pix cs in existsb (fun a => a * (Z.of_nat (length areas) - 1) =? 5 * (zsum areas - zmax areas)) areas.
+Definition affine (m11 m12 m21 m22 tx ty : Z) (p : pix) : pix := (m11 * fst p + m12 * snd p + tx, m21 * fst p + m22 * snd p + ty).
